@@ -225,7 +225,7 @@ def run_op(api, layout_mod, write_elf, op):
                 srcs = [op["src"]] + list(op.get("more_srcs", []))
                 obj = api.c3c([io.StringIO(x) for x in srcs], [], op["march"],
                               opt_level=op["opt"],
-                              debug=op.get("debug", False))
+                              debug=op.get("debug", False), reporter=rep)
             elif kind == "asm":
                 obj = api.asm(io.StringIO(op["src"]), op["march"])
             elif kind == "bf":
